@@ -595,6 +595,46 @@ func verifH_C18_times() {
 	verifReach("end")
 }
 
+// struct types without a name, of different shapes, in one struct
+type verifAnonymous struct {
+	A struct {
+		X int32 `json:"x"`
+	} `json:"a"`
+	B struct {
+		X string `json:"x"`
+	} `json:"b"`
+	L []struct {
+		Y bool `json:"y"`
+	} `json:"l"`
+}
+
+//verif:harness id=C18 tier=quick,thorough witness=end bounds="struct fields whose types are struct types without a name (two of different shapes and a slice of a third) x options none / component export / component export with a type name generator: generation succeeds, every $ref names a component, and the encoding (int32 symbolic) validates: unnamed types are not merged under one (empty) component name"
+func verifH_C18_anonymous_structs() {
+	comps := openapi3.Schemas{}
+	var opts []Option
+	switch verifChoose("options", 3) {
+	case 1:
+		opts = append(opts, CreateComponentSchemas(ExportComponentSchemasOptions{ExportComponentSchemas: true}))
+	case 2:
+		opts = append(opts, CreateComponentSchemas(ExportComponentSchemasOptions{ExportComponentSchemas: true}), CreateTypeNameGenerator(func(t reflect.Type) string { return "T" + t.Name() }))
+	}
+	ref, err := NewSchemaRefForValue(&verifAnonymous{}, comps, opts...)
+	verifAssert(err == nil && ref != nil, "C18 anonymous structs: generation succeeds")
+	if err != nil || ref == nil {
+		return
+	}
+	root := &openapi3.SchemaRef{Ref: ref.Ref, Value: ref.Value}
+	verifAssert(verifResolveGen(root, comps, 0), "C18 anonymous structs: every $ref in the generated schema names a component")
+	for _, c := range comps {
+		verifAssert(verifResolveGen(c, comps, 0), "C18 anonymous structs: every $ref in a generated component names a component")
+	}
+	enc := map[string]any{"a": map[string]any{"x": float64(verifNondetInt32("x"))}, "b": map[string]any{"x": "s"}, "l": []any{map[string]any{"y": true}}}
+	if root.Value != nil {
+		verifAssert(root.Value.VisitJSON(enc) == nil, "C18 anonymous structs: the generated schema accepts the encoding")
+	}
+	verifReach("end")
+}
+
 // named types whose name ends in Ref but that are not reference wrappers (not even structs)
 type verifColorRef string
 type verifCountRef int32
